@@ -320,17 +320,30 @@ func (p *Pool) Run(cases []any, onResult func(i int, out json.RawMessage, crash 
 	}
 	p.CaseTimeout = 4 * saved
 	defer func() { p.CaseTimeout = saved }()
+	hangs, unretried := 0, 0
 	for _, i := range deferred {
+		if hangs >= 3 {
+			// Three cases have hung with the machine to themselves: the verdict of this run is settled, and every
+			// further one would cost four times the case limit. The rest is not run again and not judged.
+			unretried++
+			continue
+		}
 		out, crash := p.exec1(0, enc[i])
 		if crash != nil && crash.Killed {
 			addResourceSkip(string(enc[i]))
 			continue
+		}
+		if crash != nil {
+			hangs++
 		}
 		if crash == nil {
 			fmt.Printf("NOTE: a case that was killed or timed out next to the other workers finished when run alone: %s\n", truncate(string(enc[i]), 300))
 		}
 		// a second time-out, alone and with four times the limit, is a hang
 		onResult(i, out, crash, false)
+	}
+	if unretried > 0 {
+		fmt.Printf("NOTE: %d further cases that timed out next to the other workers were not run again (three hangs already confirmed)\n", unretried)
 	}
 }
 
